@@ -1,0 +1,41 @@
+//! Verification hooks (compiled only with `--cfg nuts_rs_verif`).
+//!
+//! Add-only re-exports and thin wrappers that give an external harness access
+//! to crate-private items. Nothing here changes the behaviour of the crate.
+
+pub use crate::adapt_strategy::GlobalStrategy;
+pub use crate::chain::{AdaptStrategy, NutsChain};
+pub use crate::dynamics::{
+    Direction, Hamiltonian, LeapfrogResult, Point, State, StatePool, TransformedHamiltonian,
+    TransformedPoint,
+};
+pub use crate::nuts::{Collector, NutsOptions, SampleInfo};
+pub use crate::sampler_stats::StatsDims;
+pub use crate::storage::{ChainStorage, StorageConfig, TraceStorage};
+pub use crate::transform::Transformation;
+
+use crate::math::Math;
+
+/// Wrapper around the crate-private `nuts::draw`.
+pub fn nuts_draw<M, H, R, C>(
+    math: &mut M,
+    init: &mut State<M, H::Point>,
+    rng: &mut R,
+    hamiltonian: &mut H,
+    options: &NutsOptions,
+    collector: &mut C,
+) -> Result<(State<M, H::Point>, SampleInfo), crate::NutsError>
+where
+    M: Math,
+    H: Hamiltonian<M>,
+    R: rand::Rng + ?Sized,
+    C: Collector<M, H::Point>,
+{
+    crate::nuts::draw(math, init, rng, hamiltonian, options, collector)
+}
+
+pub fn logaddexp(a: f64, b: f64) -> f64 {
+    crate::math::logaddexp(a, b)
+}
+
+pub use crate::stepsize::{VerifAdam as Adam, VerifDualAverage as DualAverage, VerifDualAverageOptions as DualAverageOptions};
